@@ -25,11 +25,12 @@ import (
 )
 
 type runSpec struct {
-	RunID     string
-	FromStep  int
-	NonFatal  int
-	StepFatal bool
-	ToStep    int
+	RunID       string
+	FromStep    int
+	NonFatal    int
+	StepFatal   bool
+	ServerFatal bool
+	ToStep      int
 }
 
 type scenario struct {
@@ -52,6 +53,8 @@ func scenarios(tier string) []scenario {
 		{Name: "v3-1run-later", Runs: []runSpec{r("r1")}, Later: true},
 		{Name: "v3-2runs", Runs: []runSpec{r("r1"), r("r2")}},
 		{Name: "v3-2runs-signal-error", Runs: []runSpec{{RunID: "r1", FromStep: 1, NonFatal: 1}, {RunID: "r2", StepFatal: true}}},
+		{Name: "v3-serverfatal-later", Runs: []runSpec{{RunID: "r1", ServerFatal: true}}, Later: true},
+		{Name: "v3-2runs-one-serverfatal-later", Runs: []runSpec{{RunID: "r1", ServerFatal: true}, r("r2")}, Later: true},
 		{Name: "v3-1run-stream", Stream: true, Runs: []runSpec{r("r1")}, Later: true},
 		{Name: "v1-1run", V1: true, Runs: []runSpec{r("v1")}},
 		{Name: "hello-badversion", Hello: "badversion"},
@@ -61,8 +64,9 @@ func scenarios(tier string) []scenario {
 		{Name: "v1-1run-writefail", V1: true, Runs: []runSpec{r("v1")}, WriteSide: true},
 	}
 	// single-flipped-byte twins of the read-side scenarios
+	flipOf := map[string]bool{"v3-1run-later": true, "v3-2runs": true, "v3-2runs-signal-error": true, "v1-1run": true, "v3-serverfatal-later": true}
 	for _, b := range s {
-		if !b.WriteSide && b.Hello == "" {
+		if !b.WriteSide && b.Hello == "" && (tier == "thorough" || flipOf[b.Name]) {
 			f := b
 			f.Name, f.Flip = b.Name+"-flip", true
 			s = append(s, f)
@@ -97,7 +101,16 @@ type obs struct {
 }
 
 // single-byte corruptions: low bit (neighbouring letter / digit / length), case bit, high bit (invalid UTF-8 / other major type)
-var flipMasks = []byte{0x01, 0x20, 0x80}
+var flipMasks = []byte{0x01, 0x80, 0x20}
+
+func masksFor(tier string) []byte {
+	if tier == "thorough" {
+		return flipMasks
+	}
+	return flipMasks[:2]
+}
+
+var tierName = "quick"
 
 var strictDec = func() cbor.DecMode {
 	m, err := cbor.DecOptions{ExtraReturnErrors: cbor.ExtraDecErrorUnknownField}.DecMode()
@@ -203,8 +216,9 @@ func body(sc *scenario, measure bool) func() {
 					o.faultAt, o.faultKind = c/3, mcrt.FaultKind(c%3)
 					s2c.ReadFault = &mcrt.Fault{At: o.faultAt, Kind: o.faultKind}
 				} else {
-					c := mcrt.Choose(len(flipMasks)*sc.StreamLen, "flipped byte")
-					o.faultAt, o.faultKind, o.mask = c/len(flipMasks), mcrt.FaultFlip, flipMasks[c%len(flipMasks)]
+					ms := masksFor(tierName)
+					c := mcrt.Choose(len(ms)*sc.StreamLen, "flipped byte")
+					o.faultAt, o.faultKind, o.mask = c/len(ms), mcrt.FaultFlip, ms[c%len(ms)]
 					s2c.ReadFault = &mcrt.Fault{At: o.faultAt, Kind: mcrt.FaultFlip, Mask: o.mask}
 				}
 			}
@@ -221,7 +235,7 @@ func body(sc *scenario, measure bool) func() {
 		peer := &atpkit.Peer{In: c2s.Reader(), Out: s2c.Writer(), OutLink: s2c, Hello: hello, V1: sc.V1, Plans: map[string]atpkit.RunPlan{}}
 		o.peer = peer
 		for _, x := range sc.Runs {
-			peer.Plans[x.RunID] = atpkit.RunPlan{SignalsFromStep: x.FromStep, NonFatalErrors: x.NonFatal, StepFatal: x.StepFatal}
+			peer.Plans[x.RunID] = atpkit.RunPlan{SignalsFromStep: x.FromStep, NonFatalErrors: x.NonFatal, StepFatal: x.StepFatal, ServerFatal: x.ServerFatal}
 		}
 		mcrt.GoNamed("peer", peer.Run)
 		cli := atp.NewClient(mcrt.Duplex{Reader: s2c.Reader(), Writer: c2s.Writer()})
@@ -384,7 +398,7 @@ func judge(sc *scenario, r *mcrt.Result) (string, []mc.Finding) {
 		if !o.faulty || (!sc.WriteSide && !hit && o.faultKind != mcrt.FaultFlip) {
 			// fault never reached: behave as on a healthy connection
 			for _, x := range sc.Runs {
-				if res := o.results[x.RunID]; sc.Hello == "" && res != nil && res.Error != nil && !x.StepFatal {
+				if res := o.results[x.RunID]; sc.Hello == "" && res != nil && res.Error != nil && !x.StepFatal && !anyServerFatal(sc) {
 					add("Execute failed although the fault position was never reached", fmt.Sprintf("%s: %v", x.RunID, res.Error))
 				}
 			}
@@ -405,6 +419,15 @@ func judge(sc *scenario, r *mcrt.Result) (string, []mc.Finding) {
 	sort.Strings(ks)
 	outcome := fmt.Sprintf("%s schema=%v %s close=%v timers=%d", r.Status, o.schemaOK, strings.Join(ks, ","), o.closeErr == nil, r.TimerFires)
 	return outcome, fs
+}
+
+func anyServerFatal(sc *scenario) bool {
+	for _, x := range sc.Runs {
+		if x.ServerFatal {
+			return true
+		}
+	}
+	return false
 }
 
 func faultReached(o *obs) bool {
@@ -459,6 +482,7 @@ func main() {
 		Property: "C08",
 		Level:    "fault_enumeration",
 		Scenarios: func(tier string) []mc.Scenario {
+			tierName = tier
 			scs = map[string]*scenario{}
 			var out []mc.Scenario
 			for _, s := range scenarios(tier) {
@@ -468,7 +492,7 @@ func main() {
 				levels := []mc.Bounds{{Preempt: 0, Delay: 0}, {Preempt: 1, Delay: 1}}
 				if s.Flip && tier != "thorough" {
 					levels = levels[:2]
-				} else if tier == "thorough" || len(s.Runs) <= 1 {
+				} else if tier == "thorough" || (len(s.Runs) <= 1 && !s.Later) {
 					levels = append(levels, mc.Bounds{Preempt: 2, Delay: 2})
 				}
 				if tier == "thorough" && len(s.Runs) <= 2 {
@@ -486,7 +510,7 @@ func main() {
 			}
 			return 150 * time.Second
 		},
-		Rule: "for every scenario: every byte offset k of the healthy server->client transcript (hello included) x {EOF, read error, 0xFF garbage from k on, byte k XOR 0x01 / 0x20 / 0x80}, or every client write index x {fails once, fails from then on}, chosen as a free environment choice; for each, every thread schedule within the delay bound; distinct = distinct (scenario, outcome) pairs",
+		Rule: "for every scenario: every byte offset k of the healthy server->client transcript (hello included) x {EOF, read error, 0xFF garbage from k on, byte k XOR 0x01 / 0x80 (thorough: also 0x20) for five of the scenarios (thorough: all)}, or every client write index x {fails once, fails from then on}, chosen as a free environment choice; for each, every thread schedule within the delay bound; distinct = distinct (scenario, outcome) pairs",
 		Assumptions: []string{
 			"peer is causally correct and keeps running after the fault (the stream is broken, not the plugin)",
 			"garbage = every byte from k on replaced by 0xFF, which can never decode as a well-formed ATP message (break code / invalid UTF-8), so no message at or after k is 'intact'",
